@@ -86,8 +86,10 @@ type Waiter struct {
 	Since int64  // driver bookkeeping
 	Tag   string // driver bookkeeping
 	MID   uint32 // id of the wanted lock (assigned at first use within the run)
-	pcs   [40]uintptr
-	npcs  int
+	// PostUnlock: not a lock acquisition but the scheduling point that follows a release (unlock-yield pass)
+	PostUnlock bool
+	pcs        [40]uintptr
+	npcs       int
 }
 
 // StackHas reports whether any frame of the parked goroutine (up to 40 frames above the lock call) is a function whose
@@ -120,6 +122,10 @@ type Scheduler struct {
 	stopped bool
 	never   chan struct{}
 	nextMID uint32
+	// UnlockYield (unlock-yield pass, DESIGN 11.17): every release of a simulated lock is followed by a scheduling
+	// point of the releasing goroutine, so that the step after an unlock can be separated from the critical section
+	// by whatever else is runnable (and held there by the driver like at any other site). Set before the run starts.
+	UnlockYield bool
 }
 
 // NewScheduler must be called inside the bubble of the run.
@@ -335,6 +341,7 @@ func (m *Mutex) Unlock() {
 	m.held = false
 	gunlock()
 	Signal()
+	afterUnlock()
 }
 
 // ---- RWMutex ----
@@ -375,6 +382,7 @@ func (rw *RWMutex) Unlock() {
 	rw.w = false
 	gunlock()
 	Signal()
+	afterUnlock()
 }
 
 //go:norace
@@ -406,6 +414,7 @@ func (rw *RWMutex) RUnlock() {
 	rw.r--
 	gunlock()
 	Signal()
+	afterUnlock()
 }
 
 //go:norace
@@ -482,7 +491,28 @@ func Yield() {
 	if cur.Load() == nil {
 		return
 	}
+	yieldNow(false)
+}
+
+//go:norace
+func yieldNow(postUnlock bool) {
+	s := cur.Load()
+	if s == nil {
+		return
+	}
 	var m Mutex
-	m.Lock()
-	m.Unlock()
+	s.park(&Waiter{m: &m, Kind: KLock, PostUnlock: postUnlock})
+	glock()
+	m.held = false
+	gunlock()
+	Signal()
+}
+
+// afterUnlock is the scheduling point that follows every release in the unlock-yield pass.
+//
+//go:norace
+func afterUnlock() {
+	if s := cur.Load(); s != nil && s.UnlockYield {
+		yieldNow(true)
+	}
 }
